@@ -343,6 +343,37 @@ def kill_points(chk, tool, shim, model_exe, work, tier, stats):
         if nc == 2 and not big:
             chk.cov['samples'].append(dict(kind='kill point', copies=2, calls=[('%(n)d %(op)s %(path)s' % e) for e in sc.twin_ev if e['n'] > 0][:30]))
         shutil.rmtree(root, ignore_errors=True)
+    # stale / missing / resized NON-first copies on format-3 arrays (a sync with nothing to do does not rewrite the content there)
+    v3 = dict(name='v3_split_h8_stale', ndisk=2, npar=1, split=True, hashsize=8, history='plain', rich=True)
+    v3b = dict(name='v3_h8_stale', ndisk=2, npar=2, split=False, hashsize=8, history='plain', rich=False)
+    for nc, spec in ((2, v3), (3, v3), (3, v3b)) if quick else ((2, v3), (3, v3), (4, v3), (2, v3b), (3, v3b)):
+        root = os.path.join(work, 'stale_%d_%s' % (nc, spec['name']))
+        os.makedirs(root)
+        sc = K.KillScenario(tool, shim, root, nc, chk.rng, spec=spec)
+        try:
+            sc.prepare()
+            if sc.final[0][:8] != b'SNAPCNT3':
+                chk.notes.append('stale-copy scenario %s is not written in format 3' % spec['name'])
+            probs = sc.problems_of_twin_basic() + sc.stale_copy_cases()
+        except L.ArrayError as e:
+            chk.violation('stale_setup_%d' % nc, 'stale-copy scenario with %d content copies could not be set up: %s' % (nc, str(e)[:300]), dict(error=str(e)))
+            continue
+        for what, rep in probs[:3]:
+            if reported < 14:
+                reported += 1
+                chk.violation('stalecopy_%dcopies' % nc, what, rep)
+        st = dict(sc.stats.get('stale_copy', {}), copies=nc, shape=spec['name'])
+        allstats.append(st)
+        total += st.get('cases', 0) * 2
+        if st.get('same_size_damage_survives'):
+            stats['candidate_finding_same_size_damage'] = stats.get('candidate_finding_same_size_damage', 0) + st['same_size_damage_survives']
+        shutil.rmtree(root, ignore_errors=True)
+    if stats.get('candidate_finding_same_size_damage'):
+        chk.notes.append('CANDIDATE FINDING (unchanged-tree behaviour, reported to the coordinator, not judged by this check): a NON-first content copy '
+                         'damaged without a change of size (one bit) survives a successful `sync` that has nothing else to write on a format-3 array '
+                         '(state_read compares sizes only): %d of %d such cases ended with copies that are not byte-identical' % (
+                             stats['candidate_finding_same_size_damage'], sum(1 for s_ in allstats if 'same_size_damage_survives' in s_) and
+                             sum((s_.get('copies', 1) - 1) for s_ in allstats if 'same_size_damage_survives' in s_)))
     stats['kill'] = allstats
     return total, sum(s.get('kills', 0) for s in allstats)
 
